@@ -240,6 +240,17 @@ func (x *Executor) execInstr(fr *Frame, in ssa.Instruction, st *State, reach str
 		if u.mute == 0 {
 			u.allocs = append(u.allocs, allocSite{Pos: u.curPos, Size: cv.T, Reach: reach, Ln: len(u.script)})
 		}
+		if top := x.topCon; top != nil && top.AllocBound != nil {
+			env := &Env{x: x, u: u, vars: x.topVars, bound: map[string]Val{}, st: st, old: x.entry, pkg: x.topPkg}
+			bt, err := env.Eval(top.AllocBound.E)
+			o := &Obligation{Name: x.topName + "#allocbound", Kind: "allocbound", Clause: "make size <= " + top.AllocBound.Src}
+			if err != nil {
+				o.Fail = err.Error()
+			} else {
+				o.Goal = fmt.Sprintf("(=> %s (<= %s %s))", reach, cv.T, bt.T)
+			}
+			u.addObl(o)
+		}
 		r := x.allocRef(st, "slice")
 		comp, _ := u.elemComp(et)
 		x.heapSet(st, comp, fmt.Sprintf("(store %s %s %s)", x.heapGet(st, comp), r, fmt.Sprintf("((as const (Array Int %s)) %s)", u.sortOf(et), u.zeroOf(et))))
